@@ -91,20 +91,22 @@ where
     }
 
     /// Writes 2 things to file:
-    /// 1. The given dirent into the dir section in the header (if any is given)
-    /// 2. Everything in the in-memory buffer that was added since the last call to this function
+    /// 1. Everything in the in-memory buffer that was added since the last call to this function
+    /// 2. The given dirent into the dir section in the header (if any is given)
     pub fn write_to_file(
         &mut self,
         buffer: &mut DumpBuf,
         dirent: Option<MDRawDirectory>,
     ) -> std::result::Result<(), FileWriterError> {
-        if let Some(dirent) = dirent {
-            self.dump_dir_entry(buffer, dirent)?;
-        }
-
+        // Write the stream contents before the directory entry that refers to them, so that
+        // a partially written file never has an entry pointing at data that isn't there
         let start_pos = self.last_position_written_to_file as usize;
         self.destination.write_all(&buffer[start_pos..])?;
         self.last_position_written_to_file = buffer.position();
+
+        if let Some(dirent) = dirent {
+            self.dump_dir_entry(buffer, dirent)?;
+        }
         Ok(())
     }
 }
